@@ -12,6 +12,7 @@ import (
 	"net/http"
 	"net/http/httptest"
 	"net/url"
+	"strconv"
 	"strings"
 	"sync"
 	"testing"
@@ -25,9 +26,10 @@ import (
 )
 
 type verifC19Lookup struct {
-	token string
-	kind  string // n, e, f
-	aca   arvados.APIClientAuthorization
+	token  string
+	kind   string // n (401), e<status>, x (error without status), f (found)
+	status int
+	aca    arvados.APIClientAuthorization
 }
 
 // stub local backend: only APIClientAuthorizationCurrent is meaningful
@@ -47,7 +49,9 @@ func (l *verifC19Local) APIClientAuthorizationCurrent(ctx context.Context, _ arv
 			case "n":
 				return arvados.APIClientAuthorization{}, httpserver.ErrorWithStatus(errors.New("unauthorized"), http.StatusUnauthorized)
 			case "e":
-				return arvados.APIClientAuthorization{}, httpserver.ErrorWithStatus(errors.New("db down"), http.StatusServiceUnavailable)
+				return arvados.APIClientAuthorization{}, httpserver.ErrorWithStatus(errors.New("lookup failed"), e.status)
+			case "x":
+				return arvados.APIClientAuthorization{}, errors.New("lookup failed")
 			default:
 				return e.aca, nil
 			}
@@ -65,6 +69,9 @@ func verifC19ParseToks(spec string) (tokens []string, table []verifC19Lookup) {
 		tok := verifc19.Unhex(p[0])
 		tokens = append(tokens, tok)
 		e := verifC19Lookup{token: tok, kind: p[1][:1]}
+		if e.kind == "e" {
+			e.status, _ = strconv.Atoi(p[1][1:])
+		}
 		if e.kind == "f" {
 			ua := strings.Split(p[1][2:], ".")
 			e.aca = arvados.APIClientAuthorization{UUID: verifc19.Unhex(ua[0]), APIToken: verifc19.Unhex(ua[1])}
@@ -84,7 +91,7 @@ func verifC19Err(err error) string {
 		return "err format"
 	case err.Error() == "no token provided":
 		return "err nocreds"
-	case err.Error() == "db down":
+	case err.Error() == "lookup failed":
 		return "err backend"
 	}
 	return "err other " + verifc19.Hex(err.Error())
